@@ -14,7 +14,8 @@ from .stmt import Iter
 from .calls import KwArgs
 from .values import (Sym, SV, SList, SSet, SOpt, FuncRef, ModuleRef, ClassRef, Opaque, Unsupported, TInt, TBool, TStr,
                      TNet, TNone, TObj, TList, TSet, TOpt, TTuple, TBV, Net, fresh, fresh_name, type_constraints,
-                     type_of, to_term, wrap, sort_of, is_concrete, list_from_concrete, BVW, BIT, BitStr, BitChar)
+                     type_of, to_term, wrap, sort_of, is_concrete, list_from_concrete, BVW, BIT, BitStr, BitChar,
+                     netmask_of, POW2, TBIT, IP_OK, IP_PARSE, WS_LEN, WS_ARR)
 
 ISDIGIT = z3.Function("py_isdigit", z3.StringSort(), z3.BoolSort())
 
@@ -381,6 +382,10 @@ class BuiltinMixin:
                 return self.concat_strs(out) if out else ""
             raise Unsupported("join of symbolic list")
         if name == "split":
+            if not args and not kwargs:
+                # whitespace split: named by ghost functions of the text (tokens are non-empty, whitespace free)
+                self.assume_here(st, WS_LEN(t) >= 0)
+                return SList(TStr, WS_LEN(t), WS_ARR(t))
             return self.str_split(s, args, kwargs, st)
         if name == "__hash__":
             return SV(TInt, z3.Function("py_hash_str", z3.StringSort(), z3.IntSort())(t))
@@ -540,6 +545,38 @@ class BuiltinMixin:
             o = args[0]
             return wrap(TBool, NET_SUB(net.t, to_term(o)))
         raise Unsupported(f"IPv4Network.{name}")
+
+    # ------------------------------------------------------------------ itertools / ipaddress models (assumed, audited)
+    def ext_itertools_product(self, args, kwargs, st, node):
+        if len(args) == 1 and tuple(args[0]) == (0, 1) and "repeat" in kwargs:
+            k = to_term(kwargs["repeat"])
+            t_, p_ = z3.Int("t!tb"), z3.Int("p!tb")
+            st.pc = st.pc + (POW2(k) >= 1, z3.ForAll([t_, p_], z3.Or(TBIT(t_, p_) == 0, TBIT(t_, p_) == 1)))
+            j = z3.Int(fresh_name("pj"))
+            return Iter(("indexed", POW2(k), lambda t: SList(TInt, k, z3.Lambda([j], TBIT(t, k - 1 - j)))))
+        raise Unsupported("itertools.product in this form")
+
+    def construct_IPv4Address(self, args, kwargs, st, node):
+        v = args[0]
+        if isinstance(v, SV) and v.ty is TStr:
+            self.pending.append((z3.Not(IP_OK(v.t)), "AddressValueError", None))
+            val = IP_PARSE(v.t)
+            self.assume_here(st, z3.ULE(val, 0xFFFFFFFF))
+            return SV(TBV, val)
+        if isinstance(v, SV) and v.ty is TBV:
+            self.pending.append((z3.UGT(v.t, 0xFFFFFFFF), "AddressValueError", None))
+            return v
+        raise Unsupported("IPv4Address of this argument")
+
+    def construct_IPv4Network(self, args, kwargs, st, node):
+        v = args[0]
+        if isinstance(v, tuple) and len(v) == 2 and isinstance(v[0], SV) and v[0].ty is TBV:
+            addr, plen = v[0].t, to_term(v[1])
+            self.pending.append((z3.Or(plen < 0, plen > 32), "NetmaskValueError", None))
+            self.pending.append((z3.And(plen >= 0, plen <= 32, z3.UGT(addr, 0xFFFFFFFF)), "AddressValueError", None))
+            self.pending.append((z3.And(plen >= 0, plen <= 32, z3.ULE(addr, 0xFFFFFFFF), (addr & ~netmask_of(plen)) != 0), "ValueError", None))
+            return SV(TNet, Net.mk_net(addr, plen))
+        raise Unsupported("IPv4Network of this argument")
 
     # ------------------------------------------------------------------ external library calls
     def call_external(self, q, args, kwargs, st, node):
